@@ -211,9 +211,27 @@ func (n *node) waitReady() error {
 	}
 }
 
-func (n *node) stop() {
+func (n *node) stop() { n.stopCtx(context.Background()) }
+
+// shutdownCtx: the context Consensus.Shutdown is called with for the event codes of kind shut:
+// dl live, dt deadline-bound (30 s ahead), de deadline already passed, dc cancelled before the call.
+func shutdownCtx(code string) (context.Context, context.CancelFunc) {
+	switch code {
+	case "dt":
+		return context.WithTimeout(context.Background(), 30*time.Second)
+	case "de":
+		return context.WithDeadline(context.Background(), time.Now().Add(-time.Second))
+	case "dc":
+		ctx, cancel := context.WithCancel(context.Background())
+		cancel()
+		return ctx, cancel
+	}
+	return context.WithCancel(context.Background())
+}
+
+func (n *node) stopCtx(ctx context.Context) {
 	if n.cc != nil {
-		n.cc.Shutdown(context.Background())
+		n.cc.Shutdown(ctx)
 	}
 	if n.h != nil {
 		n.h.Close()
@@ -410,12 +428,14 @@ func (s *single) event(tok string) (string, error) {
 			res = "err"
 		}
 		return fmt.Sprintf("%s~%d~%s~-", res, n.appliedOps(), n.view()), nil
-	case code == "d":
+	case code == "d" || code == "dl" || code == "dt" || code == "de" || code == "dc":
 		if !n.up {
 			return "noop~0~D~-", nil
 		}
 		a := n.appliedOps()
-		n.stop()
+		ctx, cancel := shutdownCtx(code)
+		n.stopCtx(ctx)
+		cancel()
 		res := "err"
 		if n.snapshotCount() > 0 {
 			res = "ok"
@@ -745,7 +765,7 @@ func runRaftCase(out *common.Out, kind string, nrep int, ops []op, events []stri
 	tracing = tracingFor(ops)
 	var run func() ([]op, []string, []string, error)
 	switch kind {
-	case "raft1", "kill":
+	case "raft1", "kill", "shut":
 		run = func() ([]op, []string, []string, error) { return runSingle(kind, ops, events) }
 	case "net":
 		run = func() ([]op, []string, []string, error) { return runNet(ops, events) }
@@ -793,6 +813,36 @@ func genRaftCase(r *common.Rng, kind string, k int) (int, []op, []string) {
 		return 1, ops, ev
 	case "net":
 		return genNetCase(r, k)
+	case "shut":
+		// acknowledged ops, optionally a forced snapshot in between (so that a missing shutdown snapshot shows
+		// an OLDER state, not just an empty one), Shutdown with one of four contexts, offline read, restart on
+		// the folder, more ops, Shutdown with another context, offline read. k and k+1 together cover all four.
+		codes := []string{"0dl", "0dt", "0de", "0dc"}
+		nops := r.Range(3, 7)
+		ops := genOps(r, nops, 3)
+		first := r.Range(2, nops-1)
+		// the operation acknowledged last before each Shutdown is a pin (of different cids): what the disk
+		// must show then differs from every earlier state
+		c1 := r.Intn(cidUniverse)
+		ops[first-1] = op{pin: true, tok: randPin(r, c1, 0, false)}
+		ops[nops-1] = op{pin: true, tok: randPin(r, (c1+1+r.Intn(cidUniverse-1))%cidUniverse, 0, false)}
+		var ev []string
+		snapAt := -1
+		if r.Intn(3) > 0 {
+			snapAt = r.Range(1, first-1)
+		}
+		for i := 0; i < first; i++ {
+			ev = append(ev, "0a")
+			if i+1 == snapAt {
+				ev = append(ev, "0s")
+			}
+		}
+		ev = append(ev, codes[k%4], "0o", "0R")
+		for i := first; i < nops; i++ {
+			ev = append(ev, "0a")
+		}
+		ev = append(ev, codes[(k+2)%4], "0o")
+		return 1, ops, ev
 	}
 	nops := r.Range(3, 12)
 	ops := genOps(r, nops, 3)
